@@ -20,6 +20,8 @@ for d in sorted(glob.glob('/verif/seeded/*/meta.json')):
     cr = m.get('check_results', {})
     res = ", ".join("%s: %s" % (k, v['verdict']) for k, v in cr.items())
     note = (" **" + m['strengthening'] + "**") if 'strengthening' in m else ""
+    if 'note' in m:
+        note += " *" + m['note'] + "*"
     out.append("| %s | %s | %s | %s%s |" % (m['name'], m['property_broken'], m['needs_to_manifest'].replace('|', '\\|'), res, note))
 seeded = "\n".join(out)
 p = '/verif/DESIGN.md'
